@@ -131,6 +131,9 @@ pub enum DocStyle {
     Line,
     Attr,
     Block,
+    /// the first half of the lines as one multi-line attribute, the rest as one attribute each
+    /// (a block comment followed by `///` lines)
+    BlockThenAttrs,
 }
 
 #[derive(Clone, Debug, PartialEq, Eq, Hash, serde::Serialize, serde::Deserialize)]
@@ -406,6 +409,9 @@ impl Module {
                 if pa != pb && pa.rsplit('/').next() == pb.rsplit('/').next() {
                     out.insert("same_file_name_in_two_directories".to_string());
                 }
+            }
+            if !td.expected_path().ends_with(".ts") {
+                out.insert("export_to_file_without_ts_suffix".to_string());
             }
             if td.is_generic() {
                 out.insert("generic".to_string());
